@@ -114,6 +114,7 @@ class Contract:
     may_raise: Tuple[str, ...] = ()  # exceptions the callee may raise non-deterministically (assumed contracts)
     allow_raises: bool = False  # if False, any raising path of a verified target must satisfy ensures too
     concretize: Optional[Callable] = None  # (model, params, S) -> plain-data case for native replay
+    init_fields: Optional[Callable] = None  # __init__ contracts: (ctx) -> {field: initial value}; used for parallel allocation
 
 
 class Registry:
